@@ -450,8 +450,8 @@ def deterministic_k(secret, z, extra_data=None):
     # RFC6979, optimized for secp256k1
     k = b"\x00" * 32
     v = b"\x01" * 32
-    if z > SECP256K1_ORDER:
-        z -= SECP256K1_ORDER
+    # like libsecp256k1's nonce function the 32 message bytes are used as they are
+    # (no reduction modulo the group order)
     z_bytes = z.to_bytes(32, "big")
     secret_bytes = secret.to_bytes(32, "big")
     if extra_data is not None:
